@@ -94,6 +94,11 @@ class FieldArrayModel(FieldCompositeModel):
         self.sum_expr = None
         self.sum_expr_btor = None
         
+        if self.is_rand_sz:
+            # The array was grown to its maximum size for solving. Only the 
+            # first 'size' elements are part of the list the user sees
+            del self.field_l[int(self.size.get_val()):]
+        
     def add_field(self) -> FieldScalarModel:
         fid = len(self.field_l)
         if self.is_enum:
